@@ -480,7 +480,7 @@ def check_case_a(case):
     line, cursor = info["line"], info["cursor"]
     nontrivial = (not _PLAIN_RE.match(case["name"])) or bool(case.get("subdir") and not _PLAIN_RE.match(case["subdir"])) \
         or case["style"] != "none"
-    labels = ["A", "A:style:" + case["style"], "A:dir" if case["isdir"] else "A:file"]
+    labels = ["A:style:" + case["style"], "A", "A:dir" if case["isdir"] else "A:file"]
     if case.get("closed"):
         labels.append("A:closing-quote-after-cursor")
     if case.get("subdir"):
@@ -821,7 +821,7 @@ def worker_a(arg):
         if labels == ["A:outside-domain"]:
             st.hist["A:outside-domain"] += 1
             return
-        st.case(key_a(case), nt, labels, sample=_sample_a(case) if nt else None, max_per_label=2)
+        st.case(key_a(case), nt, labels, sample=_sample_a(case) if nt else None, max_per_label=1)
         if f is not None:
             st.fail(f)
 
@@ -941,7 +941,7 @@ def _disarm():
     signal.setitimer(signal.ITIMER_VIRTUAL, 0)
 
 
-HANG_S = 10.0       # CPU seconds; a parse costs ~0.5 ms
+HANG_S = 3.0        # CPU seconds (ITIMER_VIRTUAL); a parse costs ~0.5 ms; re-confirmed once with the doubled bound
 
 
 def _where(e):
@@ -1021,7 +1021,6 @@ def analyse(parser, text, cursor, bound=HANG_S):
     return None
 
 
-_F5_RE = re.compile(r"^(?:[^\S\n]*(?:#[^\n]*)?\n)*\\\n")      # only blank / comment lines, then a backslash-newline at column 0
 _FSTR_RE = re.compile(r"(?i)f[rbpu]*('|\")")
 
 
@@ -1167,7 +1166,8 @@ def worker_b(arg):
                     labels.append("B:non-ascii")
             elif any(c in text for c in chs):
                 labels.append("B:" + cls)
-        st.case(("B", text), nt, labels, sample={"text": text} if nt and len(text) > 6 else None, max_per_label=2)
+        labels = labels[1:] + labels[:1]          # most specific class first (it names the evidence sample)
+        st.case(("B", text), nt, labels, sample={"text": text} if nt and len(text) > 6 else None, max_per_label=1)
         st.evaluations += len(text)          # len+1 cursor positions were evaluated
         budget[0] -= len(text) + 1
         if f is not None:
@@ -1340,7 +1340,7 @@ def main(run):
     os.chdir(common.VERIF)
     na = 6
     nb = 6
-    per_a = run.n(450, 12000)
+    per_a = run.n(1000, 14000)
     per_b = run.n(30000, 800000)
     args = []
     naf = 4
